@@ -21,6 +21,7 @@ func c06(c *Ctx) {
 		"members of a function curve are SpeedCurves that satisfy this same range guarantee (induction hypothesis)")
 	tb := ir.NewTB(c.P.IsRepoFunc, c.P.FuncKey)
 	tb.InlineMaxBlocks = 0
+	tb.ParamCallers = c.StaticCallers
 
 	notDecided := map[string]string{
 		"delta":   "needs the relational fact dmax >= dmin",
@@ -42,26 +43,11 @@ func c06(c *Ctx) {
 				val   ssa.Value
 				facts []ir.Fact
 				label string
+				an    *ranges.An
 			}
 			var evs []edgeVal
-			rv := ir.Resolve(ret.Results[0])
-			if phi, ok := rv.(*ssa.Phi); ok {
-				for i, e := range phi.Edges {
-					pred := phi.Block().Preds[i]
-					fs := ranges.FactsAt(phi.Block(), pred)
-					evs = append(evs, edgeVal{e, fs, c.curveFormLabel(fs, e, tb)})
-				}
-			} else {
-				evs = append(evs, edgeVal{rv, facts0, c.curveFormLabel(facts0, rv, tb)})
-			}
-			for _, ev := range evs {
-				n++
-				key := fk + "|" + ev.label
-				if why, skip := notDecided[ev.label]; skip {
-					c.R.Excluded("R-range", key, fk, c.P.Pos(ret.Pos()), why)
-					continue
-				}
-				an := ranges.New(fn)
+			newAn := func(f *ssa.Function) *ranges.An {
+				an := ranges.New(f)
 				an.Name = func(v ssa.Value) string {
 					s := tb.Of(v, nil).String()
 					if len(s) > 60 {
@@ -70,23 +56,41 @@ func c06(c *Ctx) {
 					return s
 				}
 				an.Inline = func(f *ssa.Function) bool { return ir.FuncIs(f, PkgUtil, "Coerce") }
-				an.Assume = func(v ssa.Value) (ranges.AV, bool) {
-					// result #0 of an interface call SpeedCurve.Evaluate
-					if ex, ok := v.(*ssa.Extract); ok && ex.Index == 0 {
-						if call, ok := ex.Tuple.(*ssa.Call); ok && ir.IsInvoke(call, PkgCurves, "SpeedCurve", "Evaluate") {
-							return ranges.AV{Lo: []ranges.Lin{ranges.Konst(0)}, Hi: []ranges.Lin{ranges.Konst(255)}}, true
-						}
+				an.Assume = c.curveAssume(tb)
+				return an
+			}
+			var enum func(an *ranges.An, v ssa.Value, facts []ir.Fact, depth int)
+			enum = func(an *ranges.An, v ssa.Value, facts []ir.Fact, depth int) {
+				rv := ir.Resolve(v)
+				if phi, ok := rv.(*ssa.Phi); ok && depth < 4 {
+					for i, e := range phi.Edges {
+						pred := phi.Block().Preds[i]
+						enum(an, e, ranges.FactsAt(phi.Block(), pred), depth+1)
 					}
-					// element of a slice built only from such results
-					if u, ok := v.(*ssa.UnOp); ok && u.Op == token.MUL {
-						if ia, ok := u.X.(*ssa.IndexAddr); ok {
-							if sliceOfCurveValues(tb.Of(ia.X, nil)) {
-								return ranges.AV{Lo: []ranges.Lin{ranges.Konst(0)}, Hi: []ranges.Lin{ranges.Konst(255)}}, true
-							}
-						}
-					}
-					return ranges.AV{}, false
+					return
 				}
+				// the form switch moved into a helper of the curves package: enumerate its returns
+				if call, ok := rv.(*ssa.Call); ok && depth < 4 {
+					if cal := ir.Callee(call).Static; cal != nil && load_FuncPkgPath(cal) == PkgCurves && len(cal.Blocks) > 0 && cal.Name() != "SetValue" {
+						if sub := an.Enter(call, facts); sub != nil {
+							for _, r2 := range ir.Returns(cal) {
+								enum(sub, r2.Results[0], ranges.FactsAt(r2.Block(), nil), depth+1)
+							}
+							return
+						}
+					}
+				}
+				evs = append(evs, edgeVal{rv, facts, c.curveFormLabel(facts, rv, tb), an})
+			}
+			enum(newAn(fn), ret.Results[0], facts0, 0)
+			for _, ev := range evs {
+				n++
+				key := fk + "|" + ev.label
+				if why, skip := notDecided[ev.label]; skip {
+					c.R.Excluded("R-range", key, fk, c.P.Pos(ret.Pos()), why)
+					continue
+				}
+				an := ev.an
 				av := an.Eval(ev.val, ev.facts)
 				lo, hi, okLo, okHi := av.ConstBounds()
 				desc := an.AVString(av)
@@ -209,4 +213,25 @@ func sliceOfCurveValues(t *ir.Term) bool {
 		return false
 	}
 	return ok(t) && n > 0
+}
+
+// curveAssume is the assume side of the SpeedCurve.Evaluate contract.
+func (c *Ctx) curveAssume(tb *ir.TB) func(v ssa.Value) (ranges.AV, bool) {
+	return func(v ssa.Value) (ranges.AV, bool) {
+		// result #0 of an interface call SpeedCurve.Evaluate
+		if ex, ok := v.(*ssa.Extract); ok && ex.Index == 0 {
+			if call, ok := ex.Tuple.(*ssa.Call); ok && ir.IsInvoke(call, PkgCurves, "SpeedCurve", "Evaluate") {
+				return ranges.AV{Lo: []ranges.Lin{ranges.Konst(0)}, Hi: []ranges.Lin{ranges.Konst(255)}}, true
+			}
+		}
+		// element of a slice built only from such results
+		if u, ok := v.(*ssa.UnOp); ok && u.Op == token.MUL {
+			if ia, ok := u.X.(*ssa.IndexAddr); ok {
+				if sliceOfCurveValues(tb.Of(ia.X, nil)) {
+					return ranges.AV{Lo: []ranges.Lin{ranges.Konst(0)}, Hi: []ranges.Lin{ranges.Konst(255)}}, true
+				}
+			}
+		}
+		return ranges.AV{}, false
+	}
 }
